@@ -245,6 +245,38 @@ def _entry_sort_key(e):
     return json.dumps(e, sort_keys=True)
 
 
+def _json_depth(v):
+    """nesting depth of a JSON value (scalars 0), computed without recursion"""
+    best, stack = 0, [(v, 0)]
+    while stack:
+        x, dpt = stack.pop()
+        if isinstance(x, (list, dict)):
+            dpt += 1
+            best = max(best, dpt)
+            for y in (x.values() if isinstance(x, dict) else x):
+                stack.append((y, dpt))
+    return best
+
+
+def _nest_of(v):
+    """{"nest": n, "obj": bool, "leaf": x} if v is x wrapped n > 60 times in one-element arrays
+    (or {"a": ..} objects), else None: such values are rebuilt inside the driver, a request
+    cannot carry them through a JSON parser with a recursion limit"""
+    n, cur = 0, v
+    obj = isinstance(v, dict)
+    while True:
+        if not obj and isinstance(cur, list) and len(cur) == 1:
+            cur = cur[0]
+        elif obj and isinstance(cur, dict) and list(cur) == ["a"]:
+            cur = cur["a"]
+        else:
+            break
+        n += 1
+    if n <= 60 or isinstance(cur, (list, dict)):
+        return None
+    return {"nest": n, "obj": obj, "leaf": cur}
+
+
 class Session:
     def __init__(self, workdir, universe=None, reflink=False, exact=False, total=False, layout=False,
                  relcache=False):
@@ -507,7 +539,8 @@ class Session:
         if o.get("time") is not None:
             c["time"] = str(o["time"])
         if "meta" in o:
-            c["meta"] = {"v": o["meta"]}
+            nest = _nest_of(o["meta"])
+            c["meta"] = {"v": o["meta"]} if nest is None else nest
         if o.get("raw") is not None:
             c["raw"] = o["raw"].hex()
         if o.get("sri"):
@@ -516,6 +549,10 @@ class Session:
 
     def _opts_abs(self, o):
         big = o.get("size") is not None and o["size"] >= 2 ** 31
+        if "meta" in o and _json_depth(o["meta"]) > 126:
+            # the record (one level) plus this value exceeds the 128-level limit of the JSON reader
+            return dict(self._opts_abs({k: v for k, v in o.items() if k != "meta"}),
+                        meta=self.u.meta_id(o["meta"]), storable=False)
         return {"size": [o["size"]] if (o.get("size") is not None and not big) else [],
                 "sizes": str(o["size"]) if o.get("size") is not None else "DEFAULT",
                 "sri": self.u.sri_sorted(o["sri"]) if o.get("sri") else [],
@@ -1077,6 +1114,29 @@ class Session:
                                                "addr": {"a": algo, "d": blob_id}, "c": c}})
         self._quiet_state()
 
+    def env_damage_inplace(self, algo, blob_id, data):
+        """Overwrite the content file of an address IN PLACE (same inode): every hard link of it
+        outside the cache - the destinations of earlier hard_link extractions - changes with it,
+        and the trace says so (one env_ext event per alias) before the state is logged."""
+        p = self.content_path(algo, blob_id)
+        st0 = os.stat(p)
+        with open(p, "r+b") as f:
+            f.truncate(0)
+            f.write(data)
+        bid = self.u.blob_id_of_bytes(data)
+        self.trace.append({"ev": "env", "op": {"op": "env_content", "addr": {"a": algo, "d": blob_id},
+                                               "c": [{"k": "file", "b": bid}]}})
+        if os.path.isdir(self.extdir):
+            for name in sorted(os.listdir(self.extdir)):
+                q = os.path.join(self.extdir, name)
+                try:
+                    st1 = os.lstat(q)
+                except OSError:
+                    continue
+                if (st1.st_dev, st1.st_ino) == (st0.st_dev, st0.st_ino):
+                    self.trace.append({"ev": "env", "op": {"op": "env_ext", "id": name, "b": [bid]}})
+        self._quiet_state()
+
     def bucket_path(self, kid):
         return os.path.join(self.root, R.bucket_relpath(self.u.keys[kid]))
 
@@ -1264,7 +1324,10 @@ def run_program(sess, prog, on_step=None):
                 if os.path.isfile(p) and not os.path.islink(p):
                     new = _damage(open(p, "rb").read(), st)
                     if new is not None:
-                        sess.env_set_content(algo, bid, data=new)
+                        if st.get("inplace"):
+                            sess.env_damage_inplace(algo, bid, new)
+                        else:
+                            sess.env_set_content(algo, bid, data=new)
             results.append(None)
             continue
         if op == "env_bucket":
